@@ -35,6 +35,19 @@
  *        need = bytes zlib emits for this message incl. the tail (measured on a deflateCopy of the real stream;
  *        0 when deflate refuses, -1 when that stream is no longer usable), db = deflateBound(len),
  *        bound = websocket_compress_bound(len) (the buffer send_frame allocates; `-` on a tree without it)
+ *   il <setup> <msg>...
+ *        messages from the client on ONE connection, every frame masked and fed on its own through ws_get_header ..
+ *        ws_handle_frame, with control frames between (in front of, behind) the fragments.
+ *        msg = <t|b|T|B>/<cuts>/<ctl>/<hexpayload>   text / binary; lower case = compressed by the peer (RSV1 on the first
+ *              frame), upper case = sent as it is;  cuts = `-` (one frame) or a.b.c as in rt;
+ *              ctl = `-` or <pos><P|Q|X><hex>.... : a ping / pong / close frame with this payload behind `pos` fragments
+ *              of this message (0 = in front of its first frame, number of fragments = behind its last one)
+ *        -> il [c=<hex of what was cut up> frags=<sizes> : <events>|<state> ... ; v=<verdict> end=<open|closed|error>]...
+ *           one token per frame fed: events = f<op>:<last>:<len>:<fnv> (frame callback), m<op>:<len>:<fnv> (message
+ *           callback), pong:<hex> / close:<code>:<on_error called> (frames the server sent), `-` none;
+ *           state = <is_fragmented><is_frag_compressed>:<frag_opcode>:<strm_decomp.avail_in>, `x` = connection closed.
+ *           v = ok (delivered once, through the right callback, equal to the payload) | none | partial(n) | bad:...
+ *           The model answers `il <t|b|T|B>/<fraghex.fraghex...>/<ctl>/<hexpayload>...` with the tokens alone.
  *   dec <setup> <mode> <cuts> <hexstream>          arbitrary bytes as a compressed message to the receive path
  *                               -> dec ret=<OK|ERROR|CLOSED> n=<outlen> h=<fnv of output>
  *   mut <setup> <mode> <cuts> <mutation> <hexpayload>   peer-compress the payload, damage the stream, feed it
@@ -178,14 +191,41 @@ static void pump(void)
 	}
 }
 
+static struct wire evs;              /* events of the frame being fed (op il) */
+static bool ev_on;
+static unsigned cb_kinds;            /* 1 message/binary, 2 message/text, 4 frame/binary, 8 frame/text */
+static void ev_add(const char *fmt, ...)
+{
+	char tmp[700];
+	va_list ap; va_start(ap, fmt); int n = vsnprintf(tmp, sizeof tmp, fmt, ap); va_end(ap);
+	if (evs.len) wire_add(&evs, ",", 1);
+	wire_add(&evs, tmp, (size_t)n);
+}
+
 static enum websocket_callback_return cb_bin(struct websocket *s, uint8_t *msg, size_t length)
-{ (void)s; wire_add(&got, msg, length); got_msgs++; return WS_OK; }
+{
+	(void)s; wire_add(&got, msg, length); got_msgs++; cb_kinds |= 1;
+	if (ev_on) ev_add("m2:%zu:%08x", length, fnv(msg, length));
+	return WS_OK;
+}
 static enum websocket_callback_return cb_txt(struct websocket *s, char *msg, size_t length)
-{ (void)s; wire_add(&got, msg, length); got_msgs++; return WS_OK; }
+{
+	(void)s; wire_add(&got, msg, length); got_msgs++; cb_kinds |= 2;
+	if (ev_on) ev_add("m1:%zu:%08x", length, fnv((uint8_t *)msg, length));
+	return WS_OK;
+}
 static enum websocket_callback_return cb_binf(struct websocket *s, uint8_t *msg, size_t length, bool last)
-{ (void)s; wire_add(&got, msg, length); if (last) got_msgs++; return WS_OK; }
+{
+	(void)s; wire_add(&got, msg, length); if (last) got_msgs++; cb_kinds |= 4;
+	if (ev_on) ev_add("f2:%d:%zu:%08x", last, length, fnv(msg, length));
+	return WS_OK;
+}
 static enum websocket_callback_return cb_txtf(struct websocket *s, char *msg, size_t length, bool last)
-{ (void)s; wire_add(&got, msg, length); if (last) got_msgs++; return WS_OK; }
+{
+	(void)s; wire_add(&got, msg, length); if (last) got_msgs++; cb_kinds |= 8;
+	if (ev_on) ev_add("f1:%d:%zu:%08x", last, length, fnv((uint8_t *)msg, length));
+	return WS_OK;
+}
 static void cb_error(struct websocket *s) { (void)s; got_error = true; }
 
 static struct websocket *ws;
@@ -542,6 +582,124 @@ static void op_rt(char **w, int nw)
 	del_ws();
 }
 
+/* ------------------------------------------------------------------ op il: frames one by one, control frames in between */
+static void feed_frame(uint8_t b0, const uint8_t *data, size_t l, unsigned seq)
+{
+	uint8_t hdr[14]; size_t h = 2;
+	if (inq_pos == inq.len) { inq.len = 0; inq_pos = 0; }
+	hdr[0] = b0;
+	if (l < 126) hdr[1] = (uint8_t)(0x80 | l);
+	else if (l < 65536) { hdr[1] = 0x80 | 126; hdr[2] = (uint8_t)(l >> 8); hdr[3] = (uint8_t)l; h = 4; }
+	else { hdr[1] = 0x80 | 127; for (int k = 0; k < 8; k++) hdr[2 + k] = (uint8_t)((uint64_t)l >> (56 - 8 * k)); h = 10; }
+	uint8_t mask[4] = { (uint8_t)(0x37 + 11 * seq), 0xfa, (uint8_t)(0x21 ^ seq), (uint8_t)(0x3d + seq) };
+	memcpy(hdr + h, mask, 4); h += 4;
+	wire_add(&inq, hdr, h);
+	size_t at = inq.len;
+	wire_add(&inq, data, l);
+	for (size_t k = 0; k < l; k++) inq.buf[at + k] ^= mask[k % 4];
+	if (!pend.armed) h_read_exactly(NULL, 1, ws_get_header, ws);
+	pump();
+}
+
+/* feed one frame and print its token: what the callbacks saw, what the server sent, the flags behind it */
+static void il_frame(uint8_t b0, const uint8_t *data, size_t l, unsigned seq)
+{
+	evs.len = 0; sent.len = 0; ev_on = true;
+	feed_frame(b0, data, l, seq);
+	ev_on = false;
+	for (size_t i = 0; i + 2 <= sent.len; ) {
+		unsigned op = sent.buf[i] & 0x0f;
+		size_t pl = sent.buf[i + 1] & 0x7f, h = 2;
+		if (pl == 126 && i + 4 <= sent.len) { pl = ((size_t)sent.buf[i + 2] << 8) | sent.buf[i + 3]; h = 4; }
+		else if (pl == 127) { ev_add("sent-long"); break; }
+		if (i + h + pl > sent.len) { ev_add("sent-torn"); break; }
+		const uint8_t *q = sent.buf + i + h;
+		if (op == 0xa) {
+			char tmp[600]; size_t o = 0;
+			if (pl == 0 || pl > 280) { tmp[o++] = '-'; }
+			else for (size_t k = 0; k < pl; k++) o += (size_t)sprintf(tmp + o, "%02x", q[k]);
+			tmp[o] = 0;
+			ev_add("pong:%s", tmp);
+		} else if (op == 0x8) ev_add("close:%u:%d", pl >= 2 ? (unsigned)((q[0] << 8) | q[1]) : 0u, got_error);
+		else ev_add("sent%x:%zu", op, pl);
+		i += h + pl;
+	}
+	if (evs.len == 0) P(" -|"); else { P(" "); fwrite(evs.buf, 1, evs.len, stdout); P("|"); }
+	if (conn_closed) P("x");
+	else P("%u%u:%u:%u", ws->ws_flags.is_fragmented, ws->ws_flags.is_frag_compressed, ws->ws_flags.frag_opcode,
+	       ws->extension_compression.strm_decomp.avail_in);
+}
+
+struct ctl_item { size_t pos; char kind; uint8_t pl[256]; size_t len; };
+
+static void op_il(char **w, int nw)
+{
+	if (nw < 3) { P("il bad-args\n"); return; }
+	P("il");
+	if (!setup(w[1])) { P(" noaccept\n"); del_ws(); return; }
+	peer_init();
+	struct wire cstream = { 0 };
+	unsigned seq = 0;
+	for (int m = 2; m < nw; m++) {
+		if (conn_closed) { P(" [skipped]"); continue; }
+		char *f[4]; int nf = 0;
+		for (char *t = w[m]; nf < 4; nf++) { f[nf] = t; char *sl = strchr(t, '/'); if (!sl) { nf++; break; } *sl = 0; t = sl + 1; }
+		if (nf != 4 || strchr("tbTB", f[0][0]) == NULL) { P(" [bad-msg]"); continue; }
+		bool text = (f[0][0] == 't' || f[0][0] == 'T'), compressed = (f[0][0] == 't' || f[0][0] == 'b');
+		size_t cuts[MAXFR]; bool fragmented = strcmp(f[1], "-") != 0;
+		for (char *c = f[1]; *c; c++) if (*c == '.') *c = ',';
+		size_t ncuts = parse_list(f[1], cuts, MAXFR - 2);
+		static struct ctl_item items[64]; size_t nitems = 0;
+		if (strcmp(f[2], "-") != 0) {
+			for (char *t = f[2]; t && *t && nitems < 64; ) {
+				char *dot = strchr(t, '.'); if (dot) *dot = 0;
+				struct ctl_item *it = &items[nitems++];
+				char *e; it->pos = strtoul(t, &e, 10); it->kind = *e ? *e++ : 'P';
+				it->len = strlen(e) / 2; if (it->len > sizeof it->pl) it->len = sizeof it->pl;
+				for (size_t k = 0; k < it->len; k++) it->pl[k] = (uint8_t)((nib(e[2 * k]) << 4) | nib(e[2 * k + 1]));
+				t = dot ? dot + 1 : NULL;
+			}
+		}
+		size_t n; uint8_t *payload = unhex(f[3], &n);
+		if (compressed) peer_deflate(payload, n, &cstream);
+		else { cstream.len = 0; wire_add(&cstream, payload, n); }
+		size_t sizes[MAXFR];
+		size_t nfr = cut_up(cstream.len, cuts, ncuts, fragmented, sizes);
+		P(" [c="); puthex(cstream.buf, cstream.len); P(" frags="); print_sizes(sizes, nfr); P(" :");
+		got.len = 0; cb_kinds = 0;
+		unsigned before = got_msgs;
+		size_t pos = 0;
+		for (size_t i = 0; i <= nfr && !conn_closed; i++) {
+			for (size_t k = 0; k < nitems && !conn_closed; k++) {
+				if (items[k].pos != i) continue;
+				uint8_t op = items[k].kind == 'P' ? 0x9 : items[k].kind == 'Q' ? 0xa : 0x8;
+				uint8_t *c = malloc(items[k].len ? items[k].len : 1);
+				memcpy(c, items[k].pl, items[k].len);
+				il_frame((uint8_t)(0x80 | op), c, items[k].len, seq++);
+				free(c);
+			}
+			if (i == nfr || conn_closed) break;
+			uint8_t b0 = (uint8_t)((i == nfr - 1 ? 0x80 : 0) | (i == 0 ? ((compressed ? 0x40 : 0) | (text ? 0x01 : 0x02)) : 0));
+			il_frame(b0, cstream.buf + pos, sizes[i], seq++);
+			pos += sizes[i];
+		}
+		unsigned done = got_msgs - before, want = fragmented ? (text ? 8u : 4u) : (text ? 2u : 1u);
+		P(" ; v=");
+		if (done == 0 && got.len == 0 && cb_kinds == 0) P("none");
+		else if (done == 0) P("partial(%zu)", got.len);
+		else if (done != 1) P("bad:count(%u)", done);
+		else if (cb_kinds != want) P("bad:callback(%x)", cb_kinds);
+		else if (got.len != n || memcmp(got.buf, payload, n) != 0) P("bad:differs(%zu)", got.len);
+		else P("ok");
+		P(" end=%s]", conn_closed ? (got_error ? "error" : "closed") : "open");
+		free(payload);
+	}
+	P("\n");
+	peer_end();
+	free(cstream.buf);
+	del_ws();
+}
+
 static void op_dec(char **w, int nw)
 {
 	if (nw < 5) { P("dec bad-args\n"); return; }
@@ -651,11 +809,12 @@ int main(void)
 		else if (!strcmp(w[0], "offer")) op_offer(w, nw, false);
 		else if (!strcmp(w[0], "offerx")) op_offer(w, nw, true);
 		else if (!strcmp(w[0], "rt")) op_rt(w, nw);
+		else if (!strcmp(w[0], "il")) op_il(w, nw);
 		else if (!strcmp(w[0], "dec")) op_dec(w, nw);
 		else if (!strcmp(w[0], "mut")) op_mut(w, nw);
 		else if (!strcmp(w[0], "comp")) op_comp(w, nw);
 		else P("unknown-op\n");
 	}
-	free(sent.buf); free(inq.buf); free(got.buf);
+	free(sent.buf); free(inq.buf); free(got.buf); free(evs.buf);
 	return 0;
 }
